@@ -15,7 +15,7 @@ Record obs := mkobs {
 }.
 
 Record sd := mksd {
-  d_sid : N; d_backend : N; d_kind : N; d_user : N; d_room : option (N * N); d_rs : N;
+  d_sid : N; d_backend : N; d_kind : N; d_user : N; d_authuser : N; d_room : option (N * N); d_rs : N;
   d_conn : option N; d_incall : bool; d_perms : option N; d_pubs : N; d_nsubs : N; d_pending : N;
   d_counted : bool; d_parent : N }.
 
@@ -32,6 +32,7 @@ Record digest := mkdigest {
   g_expect : N;
   g_nbackendroom : N; g_nroom : N; g_nuser : N; g_nsession : N;
   g_mcuopen : N;
+  g_mcupending : N;
 }.
 
 (* ---- equality tests ---- *)
@@ -147,6 +148,7 @@ Definition sd_of (h : hub) (e : N * session) : sd :=
   let '(sid, s) := e in
   mksd sid s.(s_backend) (kind_num s.(s_kind))
        (match s.(s_kind) with KVirtual _ _ => s.(s_user) | _ => sess_userid h sid s end)
+       (match s.(s_kind) with KVirtual _ _ => 0 | _ => s.(s_user) end)
        s.(s_room) (if is_virtual s.(s_kind) then 0 else s.(s_rs)) s.(s_conn) (in_call h sid s) s.(s_perms) (pubs_mask s.(s_pubs))
        (N.of_nat (length s.(s_subs))) (pending_len s.(s_pending))
        (nmem sid (counted_of h s.(s_backend)))
@@ -154,7 +156,7 @@ Definition sd_of (h : hub) (e : N * session) : sd :=
 
 Definition sd_eqb (a b : sd) : bool :=
   N.eqb a.(d_sid) b.(d_sid) && N.eqb a.(d_backend) b.(d_backend) && N.eqb a.(d_kind) b.(d_kind) &&
-  N.eqb a.(d_user) b.(d_user) && opt_pair_eqb a.(d_room) b.(d_room) && N.eqb a.(d_rs) b.(d_rs) &&
+  N.eqb a.(d_user) b.(d_user) && N.eqb a.(d_authuser) b.(d_authuser) && opt_pair_eqb a.(d_room) b.(d_room) && N.eqb a.(d_rs) b.(d_rs) &&
   optN_eqb a.(d_conn) b.(d_conn) && Bool.eqb a.(d_incall) b.(d_incall) && optN_eqb a.(d_perms) b.(d_perms) &&
   N.eqb a.(d_pubs) b.(d_pubs) && N.eqb a.(d_nsubs) b.(d_nsubs) && N.eqb a.(d_pending) b.(d_pending) &&
   Bool.eqb a.(d_counted) b.(d_counted) && N.eqb a.(d_parent) b.(d_parent).
@@ -178,7 +180,8 @@ Definition digest_of (h : hub) : digest :=
            (N.of_nat (length (filter (fun e => is_client_sess (snd e) && match (snd e).(s_room) with Some _ => true | None => false end) h.(h_sessions))))
            (N.of_nat (length (filter (fun e => is_client_sess (snd e) && negb (N.eqb (snd e).(s_user) 0)) h.(h_sessions))))
            (N.of_nat (length h.(h_sessions)))
-           (N.of_nat (length h.(h_mcuopen))).
+           (N.of_nat (length h.(h_mcuopen)))
+           (N.of_nat (length h.(h_mcupending))).
 
 Definition digest_match (a b : digest) : bool :=
   mset_eqb sd_eqb a.(g_sessions) b.(g_sessions) &&
@@ -190,7 +193,7 @@ Definition digest_match (a b : digest) : bool :=
   N.eqb a.(g_expect) b.(g_expect) &&
   N.eqb a.(g_nbackendroom) b.(g_nbackendroom) && N.eqb a.(g_nroom) b.(g_nroom) &&
   N.eqb a.(g_nuser) b.(g_nuser) && N.eqb a.(g_nsession) b.(g_nsession) &&
-  N.eqb a.(g_mcuopen) b.(g_mcuopen).
+  N.eqb a.(g_mcuopen) b.(g_mcuopen) && N.eqb a.(g_mcupending) b.(g_mcupending).
 
 (* which part of the digest differs (for the report): 1..15 *)
 Definition digest_diff (a b : digest) : N :=
@@ -208,7 +211,8 @@ Definition digest_diff (a b : digest) : N :=
   else if negb (N.eqb a.(g_nroom) b.(g_nroom)) then 12
   else if negb (N.eqb a.(g_nuser) b.(g_nuser)) then 13
   else if negb (N.eqb a.(g_nsession) b.(g_nsession)) then 14
-  else if negb (N.eqb a.(g_mcuopen) b.(g_mcuopen)) then 15 else 0.
+  else if negb (N.eqb a.(g_mcuopen) b.(g_mcuopen)) then 15
+  else if negb (N.eqb a.(g_mcupending) b.(g_mcupending)) then 16 else 0.
 
 (* ---- cases ---- *)
 Definition trace := list (op * obs * digest).
